@@ -130,6 +130,9 @@ class C12(Scenario):
             fam["flat_form"] = 0.3
             fam["mesh_sequence"] = 0.35
             cfg["mirror_geo"] = rng.random() < 0.5
+        elif arm == "low-stack":
+            cfg["indexed_sums"] = rng.choice([2, 4, 8, 12])
+            cfg["depth"] = rng.choice([3, 4])
         elif arm == "sweep":
             cfg["n_forms"] = rng.randint(1, 2)
             cfg["n_derived"] = rng.randint(0, 2)
